@@ -65,7 +65,10 @@ def _t_ppf(L, q, df):
 
 @model('scipy.stats.distributions.norm.sf', 'scipy.stats.norm.sf')
 def _norm_sf(L, x):
-    return NORMSF(to_real(x))
+    """survival function of the standard normal: in [0,1], at most 1/2 for a non-negative argument (assumed facts)"""
+    v = to_real(x)
+    L.ctx.fact(z3.And(NORMSF(v) >= 0, NORMSF(v) <= 1, z3.Implies(v >= 0, NORMSF(v) * 2 <= 1)))
+    return NORMSF(v)
 
 
 # ---------------------------------------------------------------- numpy.ma
@@ -289,3 +292,94 @@ def _np_unique(L, a, return_index=False, return_inverse=False, return_counts=Fal
     if isinstance(a, Arr) and a.ndim == 1 and a.ghost.get('selection') is not None and a.ghost.get('index_selection'):
         return a
     raise Unsupported('numpy.unique of a general array')
+
+
+# ---------------------------------------------------------------- pieces of the Wilcoxon signed-rank kernel
+from .lib import CNT, ok_patterns      # noqa: E402
+
+
+@model('numpy.not_equal')
+def _np_not_equal(L, a, b):
+    import ast as _ast
+    if isinstance(a, Arr) or isinstance(b, Arr):
+        return L.arr_compare(_ast.NotEq(), L.as_arr(a) if not isinstance(a, Arr) else a, b)
+    return L.I.S.compare(_ast.NotEq(), a, b)
+
+
+@model('numpy.compress')
+def _np_compress(L, condition, a, axis=None, **kw):
+    """numpy.compress(cond, a) for 1-d a and a condition of the same length: a[cond]"""
+    if kw:
+        raise Unsupported('numpy.compress keywords')
+    a, condition = L.as_arr(a), L.as_arr(condition)
+    if a.ndim != 1 or condition.ndim != 1 or axis not in (None, -1, 0):
+        raise Unsupported('numpy.compress rank / axis')
+    return L.mask_select(a, condition)
+
+
+def midrank_term(a, n, i):
+    """rank of a[i] among a[0..n) with ties given the average rank: #{a_j < a_i} + (#{a_j = a_i} + 1) / 2"""
+    j = z3.Int('i!cnt')
+    ai = to_real(a.f((i,)))
+    lt = CNT(z3.Lambda([j], to_real(a.f((j,))) < ai), n)
+    eq = CNT(z3.Lambda([j], to_real(a.f((j,))) == ai), n)
+    return z3.ToReal(lt) + (z3.ToReal(eq) + 1) / 2
+
+
+@model('scipy.stats.rankdata')
+def _rankdata(L, a, method='average', **kw):
+    """assumed contract (method 'average', 1-d): midranks.  Added fact, Lean lemma L7_midrank_strict: ranks are strictly
+    monotone in the value, so two entries have the same rank exactly when they have the same value."""
+    if method != 'average' or kw:
+        raise Unsupported('rankdata method / options')
+    a = L.as_arr(a).snapshot()
+    if a.ndim != 1:
+        raise Unsupported('rankdata rank')
+    n = to_z3(a.shape[0])
+    r = Arr(a.shape, lambda ix: midrank_term(a, n, to_z3(ix[0])), 'float64', label='midranks')
+    i, j = z3.Ints('i!rk j!rk')
+    ri, rj = midrank_term(a, n, i), midrank_term(a, n, j)
+    ai, aj = to_real(a.f((i,))), to_real(a.f((j,)))
+    L.ctx.fact(z3.ForAll([i, j], z3.Implies(z3.And(0 <= i, i < n, 0 <= j, j < n), (ri == rj) == (ai == aj)),
+                         patterns=ok_patterns([[a.f((i,)), a.f((j,))]])), lemma=True)
+    L.I.used_lemmas.add('L7.midrank_strict')
+    r.ghost['midranks_of'] = a
+    return r
+
+
+def _unique_with_counts(L, a):
+    """numpy.unique(a, return_counts=True), 1-d: G distinct values in ascending order and how often each occurs.
+    Ghost: group index grp(i) of element i."""
+    a = L.as_arr(a).snapshot()
+    if a.ndim != 1:
+        raise Unsupported('unique rank')
+    ctx = L.ctx
+    n = to_z3(a.shape[0])
+    G = ctx.fresh_int('n_unique')
+    vals = L.fresh_arr('unique_values', (G,), a.dtype)
+    grp = ctx.fresh_fun('group_of', z3.IntSort(), z3.IntSort())
+    i, k, k2 = z3.Ints('i!un k!un k2!un')
+    V = vals.term
+    ai = to_z3(a.f((i,)))
+    ctx.fact(z3.And(G >= 0, G <= n, z3.Implies(n > 0, G >= 1)))
+    ctx.fact(z3.ForAll([k, k2], z3.Implies(z3.And(0 <= k, k < k2, k2 < G), V[k] < V[k2]), patterns=[z3.MultiPattern(V[k], V[k2])]))
+    ctx.fact(z3.ForAll([i], z3.Implies(z3.And(0 <= i, i < n), z3.And(0 <= grp(i), grp(i) < G, V[grp(i)] == ai)), patterns=[grp(i)]))
+    t = z3.Int('i!cnt')
+    cnt = lambda kk: CNT(z3.Lambda([t], grp(t) == kk), n)
+    cfun = ctx.fresh_fun('count_of_group', z3.IntSort(), z3.IntSort())
+    counts = Arr((G,), lambda ix: cfun(to_z3(ix[0])), 'int64', label='unique_counts')
+    # every value occurs at least once
+    ctx.fact(z3.ForAll([k], z3.Implies(z3.And(0 <= k, k < G), z3.And(cfun(k) == cnt(k), cfun(k) >= 1)), patterns=[cfun(k)]))
+    counts.ghost['unique'] = dict(of=a, group=grp, G=G, n=n, values=vals, count=cfun, count_term=cnt)
+    ctx.ghost.setdefault('uniques', []).append(counts.ghost['unique'])
+    return vals, counts
+
+
+_prev_unique = MODELS['numpy.unique']
+
+
+@model('numpy.unique')
+def _np_unique2(L, a, return_index=False, return_inverse=False, return_counts=False, axis=None, **kw):
+    if return_counts and not (return_index or return_inverse or kw) and axis is None:
+        return _unique_with_counts(L, a)
+    return _prev_unique(L, a, return_index=return_index, return_inverse=return_inverse, return_counts=return_counts, axis=axis, **kw)
